@@ -76,6 +76,8 @@ func init() {
 		ruleMapOrder([]string{"encoding/mvt.Marshal", "encoding/mvt.MarshalGzipped"}, []string{"encoding/mvt/vectortile"}, 1),
 		ruleRunOnce(inMVT, 30),
 		ruleLoopAlias(inMVT, 20),
+		ruleLoopShapes(inMVT, 0, 5),
+		ruleProtoTables,
 		ruleMemberLoops(inMVT, 18, 0),
 	)
 
@@ -99,6 +101,9 @@ func init() {
 			ruleShapeFaults(shapeConfig{label: "hostile input", keep: func(string) bool { return false }, extra: hostileEntries, floor: 34,
 				override: hostileParams(nb, ns), hostile: true, lim: lim})(c)
 		},
+		ruleShapeFaults(shapeConfig{label: "wkb unit decoders", keep: func(string) bool { return false }, extra: wkbUnitDecoders, floor: 12,
+			override: hostileParams(24, 0), hostile: true, lim: Limits{MaxStates: 1500, MaxSteps: 20000, MaxVisits: 3, MaxDepth: 40},
+			post: rulePost("wkb decoders", decodedNonNil)}),
 	)
 
 	register("C07",
@@ -359,6 +364,9 @@ func observerEntries(c *Ctx) []effectEntry {
 		}
 		out = append(out, effectEntry{key: key, roles: roles})
 	}
+	// 0-d / 1-d clipping is documented as returning new geometry ("MultiPoint returns a new set"; only
+	// 1-d/2-d input is scratch space for clip.Geometry): read-only on their argument, see C07
+	out = append(out, lineClipEntries(c)...)
 	return out
 }
 
@@ -535,4 +543,12 @@ func marshalEntries(keys ...string) func(c *Ctx) []effectEntry {
 		}
 		return out
 	}
+}
+
+var wkbUnitDecoders = []string{
+	"encoding/internal/wkbcommon.readMultiPoint", "encoding/internal/wkbcommon.readLineString", "encoding/internal/wkbcommon.readMultiLineString",
+	"encoding/internal/wkbcommon.readPolygon", "encoding/internal/wkbcommon.readMultiPolygon", "encoding/internal/wkbcommon.readCollection",
+	"encoding/internal/wkbcommon.unmarshalPoints", "encoding/internal/wkbcommon.unmarshalMultiPoint", "encoding/internal/wkbcommon.unmarshalLineString",
+	"encoding/internal/wkbcommon.unmarshalMultiLineString", "encoding/internal/wkbcommon.unmarshalPolygon", "encoding/internal/wkbcommon.unmarshalMultiPolygon",
+	
 }
